@@ -3,6 +3,8 @@
 
     (coveredcheck <this> <objects> <kind> <program> (expect accepted|unobservable|any) (impl <ir-stream answer>))
         → (ok covered …) | (ok rejected …) | (fail "…")
+    (both also with a trailing `(siblings …)` node: the binding under test is then a MEMBER of a gadget property —
+     `font.family: …` — next to sibling members; the IR in `(impl …)` is that member's)
     (c02-history  <this> <objects> <kind> <program> (world (obj "a" (("i" (int 3)) ("next" (ptr "b")) …)) …)
                   (history (set "a" "i" (int 5)) …) (impl <ir-stream answer>))
         → (ok steps N) | (ok steps k undefined) | (ok rejected) | (skip "…") | (fail step k …)
@@ -90,6 +92,10 @@ def pureEval (r : Rvalue) (ov : Operand → Option Val) : Option Val :=
      | .logical .and, some (.bool a), some (.bool b) => some (.bool (a && b))
      | .logical .or, some (.bool a), some (.bool b) => some (.bool (a || b))
      | _, _, _ => none)
+  | .callBuiltin .max [a, b] =>
+    (match ov a, ov b with | some (.int x), some (.int y) => some (.int (if x < y then y else x)) | _, _ => none)
+  | .callBuiltin .min [a, b] =>
+    (match ov a, ov b with | some (.int x), some (.int y) => some (.int (if y < x then y else x)) | _, _ => none)
   | .unary .logNot a => (match ov a with | some (.bool b) => some (.bool !b) | _ => none)
   | .unary .minus a => (match ov a with | some (.int v) => in32 (-v) | _ => none)
   | .unary .plus a => (match ov a with | some (.int v) => some (.int v) | _ => none)
